@@ -27,6 +27,9 @@ type Hooks struct {
 	MaxChaos   int
 	HealRounds int
 	NoXRs      bool // the world's XRs come from claims only
+	// BootOptional: the world may legitimately fail to start its dynamic
+	// controllers (a property places an obstacle before boot).
+	BootOptional bool
 }
 
 // Run is the generic W-xr / W-claim run.
@@ -66,11 +69,11 @@ func Run(s *sim.Sim, res *runner.Result, h Hooks) {
 			return
 		}
 	}
-	if !w.Boot() {
+	if !w.Boot() && !h.BootOptional {
 		res.Trouble = "world did not boot (XRD controllers did not start the XR controller)"
 		return
 	}
-	if !h.NoXRs {
+	if !h.NoXRs && w.Store.Kind(XRGVK.GroupKind()) != nil {
 		if err := w.CreateXRs(wl); err != nil {
 			res.Trouble = err.Error()
 			return
